@@ -914,10 +914,14 @@ class Exec(Interp):
             if outcome.kind == "return":
                 res = outcome.value
                 if rk is not KNone and res.kind is not KNone or (rk is not KNone and res.kind is KNone):
+                    lazy = self.lazy_empty
+                    self.lazy_empty = False         # a returned `{}` / `[]` literal is a real (fresh) object of the result kind
                     try:
                         res = self.coerce(st, res, rk)
                     except Unsupported:
                         pass
+                    finally:
+                        self.lazy_empty = lazy
                 ctx.result = res
             whens = []
             raw = []
